@@ -27,7 +27,7 @@ type DialGreet struct {
 	NPoller   int    `json:"npoller"`
 	Dials     int    `json:"dials"`
 	GreetLen  int    `json:"greet_len"`
-	HoldMs    int    `json:"hold_poller_ms"` // another connection's data callback keeps the poller busy this long while the dials complete
+	HoldMs    int    `json:"hold_poller_ms"`  // another connection's data callback keeps the poller busy this long while the dials complete
 	TimeoutMs int    `json:"dial_timeout_ms"` // 0 = DialAsync
 	HalfClose bool   `json:"half_close"`
 	Transport string `json:"transport"` // tcp, unix
